@@ -19,6 +19,11 @@ Pipeline (model-based; the TLA+ specification decides):
      Landing-step probes: two steps (first_step = max_step = 1, span 1.3) so that the second step is shortened by the landing logic; c_i
      relative to the ACTUAL step, a_ij, b_j of that step, and the call that provides its k1 = f(x_1, y_1), with the low-level builders'
      dense_output(true) and dense_output(false) (identical stage arguments required).  DOP853's dense-only stages 14-16 are left to C07.  RADAU also has the flag but is implicit: not probed.
+     Rejection probes (RK23, DOPRI5, DOP853; first step and after one accepted step): a per-component atol forces the first attempt of a step to
+     be rejected; the accepted retry must apply the tableau with k_1 = f(x_n, y_n) at the accepted state.
+     RADAU: spec/tableaux/TableauxRADAU.tla brackets the nodes c_1 < c_2 (roots of 10c^2 - 8c + 1) to 1e-30; every Newton iteration's three
+     evaluation times (time-dependent problems y_k' = t^k and t^k - y_k, three steps, both directions) must be x_n + c_i h; y' = t^k, k <= 4,
+     must be integrated exactly (numeric allowance).  A run whose call pattern cannot be interpreted is skipped and counted as drift.
   thorough adds: every canary, every negative fact once more as an invariant of its own, estimator sums over all stage pairs.
 """
 import concurrent.futures
@@ -56,7 +61,12 @@ ASSUMPTIONS = [
     "direction on the stage sets {1} and {last stage} (weights bound by the source route) at three magnitudes each; if neither follows the law the route is skipped and "
     "counted as coverage.controller_model_mismatch (drift), never a violation; allowance 128 * 2^-52 relative on |sum_k w_k e_k|",
     "source-level extraction assumes `const NAME: Float = <literal> [/ <literal>];` and that rustc evaluates it in IEEE double arithmetic",
-    "NOT decided: Radau's Pade clause and 'accepted steps grow like tol^(-1/q)' (numeric); RADAU and BDF are not covered",
+    "RADAU: only the abscissae c_1, c_2, c_3 of the stage evaluations are bound (nodes bracketed to 1e-30 by Apalache) plus a numeric sanity probe "
+    "(y' = t^k, k <= 4, exact to 16 ulp); the call pattern (evaluations at x_n, then triples, f(x_n + h) after acceptance) is read from the code and a run that "
+    "does not fit it is skipped as drift",
+    "rejection probes: the accepted attempt is taken to be the last n calls before the callback that follows it; a run that does not decompose into "
+    "accepted steps and rejected attempts of the known lengths is skipped as drift",
+    "NOT decided: Radau's order conditions and Pade clause, 'accepted steps grow like tol^(-1/q)' (numeric); BDF is not covered",
 ]
 
 TRUSTED = [
@@ -529,35 +539,183 @@ def facts_from_landing_run(facts, job, rec, max_stage=None):
             tt = untok(calls[i - 1]["t"])
             facts.add(m, "land1_c_%d" % i, dn, via, abs_dist(tt, t.c[i] * F(x1), abs(F(x1))) if _finite([tt]) else CAP, 2,
                       got="t=%r in the step [0, %r]" % (tt, x1), want="c_%d = %s" % (i, t.c[i]))
+    step_weight_facts(facts, m, dn, via, "land", (x1, y1, x2, y2), calls, lambda j: comp(m, dense, j), top, "step 2")
+
+
+def step_weight_facts(facts, m, dn, via, prefix, g, calls, compf, top, what, h_exact=True):
+    """c_i (relative to the start and the ACTUAL length of the step), a_ij, b_j of one accepted step of an impulse-probe run.
+    g = (x_n, y_n, x_{n+1}, y_{n+1}); compf(j) = 1-based index of the ode call whose result is k_j of this step."""
+    t = tg.tab(m)
+    x1, y1, x2, y2 = g
+    h2 = F(x2) - F(x1)
+    xscale = max(abs(F(x1)), abs(F(x2)))
+    dim = len(y1)
+    # allowance for a_ij, b_j in ulps of the coefficient: 4, plus -- when the step length is only known as x_{n+1} - x_n of the callbacks
+    # (the solver's own h may differ from it by the rounding of x_n + h) -- that relative uncertainty
+    wbound = 4 if h_exact else 4 + math.ceil(ulp_of(xscale) / abs(h2) * 2 ** 53)
     for i in range(2, top + 1):
-        ci = comp(m, dense, i)
+        ci = compf(i)
         if ci > len(calls):
-            facts.add(m, "land_c_%d" % i, dn, via, CAP, 2, got="missing ode call %d" % ci, want=str(t.c[i]))
+            facts.add(m, "%s_c_%d" % (prefix, i), dn, via, CAP, 2, got="missing ode call %d" % ci, want=str(t.c[i]))
             continue
         tt = untok(calls[ci - 1]["t"])
         ys = [untok(v) for v in calls[ci - 1]["y"]]
         if not _finite([tt] + ys) or len(ys) != dim:
-            facts.add(m, "land_c_%d" % i, dn, via, CAP, 2, got="non-finite stage arguments", want=str(t.c[i]))
+            facts.add(m, "%s_c_%d" % (prefix, i), dn, via, CAP, 2, got="non-finite stage arguments", want=str(t.c[i]))
             continue
-        facts.add(m, "land_c_%d" % i, dn, via, abs_dist(tt, F(x1) + t.c[i] * h2, xscale), 2,
+        facts.add(m, "%s_c_%d" % (prefix, i), dn, via, abs_dist(tt, F(x1) + t.c[i] * h2, xscale), 2,
                   got="t=%r, i.e. c=%.17g of the actual step" % (tt, float((F(tt) - F(x1)) / h2)), want="c_%d = %s" % (i, t.c[i]))
         used = set()
         for j in range(1, i):
-            q = comp(m, dense, j)
+            q = compf(j)
             used.add(q)
             got = (F(ys[q - 1]) - F(y1[q - 1])) / h2
-            facts.add(m, "land_a_%d_%d" % (i, j), dn, via, _rel_dist(got, t.a(i, j)), 4, got=float(got), want=str(t.a(i, j)))
+            facts.add(m, "%s_a_%d_%d" % (prefix, i, j), dn, via, _rel_dist(got, t.a(i, j)), wbound, got=float(got), want=str(t.a(i, j)))
         stale = [q for q in range(1, dim + 1) if q not in used and ys[q - 1] != y1[q - 1]]
-        facts.add(m, "land_other_%d" % i, dn, via, CAP if stale else 0, 0,
-                  got="stage %d of step 2 moved components %s (derivatives of other ode calls)" % (i, stale[:6]), want="only k_1..k_%d of step 2 enter" % (i - 1))
+        facts.add(m, "%s_other_%d" % (prefix, i), dn, via, CAP if stale else 0, 0,
+                  got="stage %d of %s moved components %s (derivatives of other ode calls)" % (i, what, stale[:6]),
+                  want="only k_1..k_%d of %s enter, k_1 = result of ode call %d" % (i - 1, what, compf(1)))
     used = set()
     for j in range(1, top + 1):
-        q = comp(m, dense, j)
+        q = compf(j)
         used.add(q)
         got = (F(y2[q - 1]) - F(y1[q - 1])) / h2
-        facts.add(m, "land_b_%d" % j, dn, via, _rel_dist(got, t.b.get(j, F(0))), 4, got=float(got), want=str(t.b.get(j, F(0))))
+        facts.add(m, "%s_b_%d" % (prefix, j), dn, via, _rel_dist(got, t.b.get(j, F(0))), wbound, got=float(got), want=str(t.b.get(j, F(0))))
     stale = [q for q in range(1, dim + 1) if q not in used and y2[q - 1] != y1[q - 1]]
-    facts.add(m, "land_other_b", dn, via, CAP if stale else 0, 0, got="the update of step 2 moved components %s" % stale[:6], want="only k_j of step 2 enter")
+    facts.add(m, "%s_other_b" % prefix, dn, via, CAP if stale else 0, 0, got="the update of %s moved components %s" % (what, stale[:6]),
+              want="only k_j of %s enter" % what)
+
+
+# ------------------------------------------------------------------ rejected-and-retried steps
+REJ_CALLS = {"RK23": 3, "DOPRI5": 6, "DOP853": 11}        # ode calls of one rejected attempt
+
+
+def reject_jobs(methods):
+    """Impulse probe with a per-component atol that is tiny exactly on the components fed by the FIRST attempt of a step, so that this
+    attempt is rejected whatever it computes and the retry (whose components have a huge atol) is accepted; variants: rejection on the
+    very first step / on the step after one accepted step.  The run is interrupted from the callback of the accepted retry."""
+    jobs = []
+    for m in methods:
+        if m not in REJ_CALLS:
+            continue
+        ns, nr = n_step(m, True), REJ_CALLS[m]
+        for variant in ("first", "later"):
+            base = 1 if variant == "first" else 1 + ns
+            dim = base + nr + ns + 2 * (nr + ns)           # room for further attempts
+            atol = [1e300] * dim
+            for c in range(base + 1, base + nr + 1):
+                atol[c - 1] = 2.0 ** -20
+            for dn, d in DIRS:
+                jobs.append({"id": f"rej/{m}/{variant}/{dn}", "kind": "rej", "api": "lowlevel", "method": m, "dir": d, "dirname": dn,
+                             "dim": dim, "resp": "unit", "atol": [tok(a) for a in atol], "rtol": tok(0.0), "thetas": [], "span": tok(4.0),
+                             "max_step": tok(1.0), "dense": True, "stop_after": 1 if variant == "first" else 2, "variant": variant})
+    return jobs
+
+
+def facts_from_reject_run(facts, job, rec, notes):
+    """The accepted retry after rejected attempt(s): its stage arguments must be y_n + h' sum_j a_ij k_j with k_1 = f(x_n, y_n) taken at the
+    ACCEPTED state (ode call 1 resp. the f(x_1, y_1) call of step 1), h' the retried step length.  Returns the number of rejections seen
+    (None: the structure of the run could not be interpreted -> skipped, drift)."""
+    m, dn, variant = job["method"], job["dirname"], job["variant"]
+    via = "reject/" + variant
+    if rec.get("panic") or rec.get("error"):
+        facts.add(m, "rej_run", dn, via, CAP, 0, got="panic/error: %s" % (rec.get("panic") or rec.get("error")), want="a completed run")
+        return 0
+    ns, nr = n_step(m, True), REJ_CALLS[m]
+    calls = rec["calls"]
+    evs = [e for e in rec.get("solout", []) if untok(e["x"]) != 0.0]
+    base = 1 if variant == "first" else 1 + ns
+    extra = len(calls) - base - ns
+    if len(evs) != (1 if variant == "first" else 2) or extra < 0 or extra % nr != 0:
+        notes.append(f"{m}/{variant}/{dn}: {len(calls)} ode calls and {len(evs)} step callbacks do not decompose into accepted steps of {ns} "
+                     f"and rejected attempts of {nr} calls")
+        return None
+    nrej = extra // nr
+    if variant == "first":
+        x1, y1 = 0.0, [0.0] * job["dim"]
+        k1c = 1
+    else:
+        x1, y1 = untok(evs[0]["x"]), [untok(v) for v in evs[0]["y"]]
+        k1c = k1_call(m)
+    x2, y2 = untok(evs[-1]["x"]), [untok(v) for v in evs[-1]["y"]]
+    if not _finite([x1, x2] + y1 + y2) or x1 == x2:
+        facts.add(m, "rej_run", dn, via, CAP, 0, got="non-finite or degenerate step data", want="an accepted retry")
+        return nrej
+    start = len(calls) - ns + 1                     # the accepted attempt is made of the last ns calls
+    step_weight_facts(facts, m, dn, via, "rej", (x1, y1, x2, y2), calls, lambda j: k1c if j == 1 else start + (j - 2), main_stages(m),
+                      "the accepted retry (after %d rejected attempt(s))" % nrej, h_exact=(x1 == 0.0))
+    return nrej
+
+
+# ------------------------------------------------------------------ Radau IIA: abscissae of every Newton iteration; polynomial sanity
+RADAU_T_BOUND = 3            # ulps of max(|x_n|, |x_n + h|)
+RADAU_POLY_BOUND = 16        # ulps of |xend|^(k+1)
+
+
+def radau_jobs():
+    jobs = []
+    for resp, dim in (("poly", 5), ("polydecay", 3)):
+        for dn, d in DIRS:
+            jobs.append({"id": f"radau/{resp}/{dn}", "kind": "radau", "api": "lowlevel", "method": "RADAU", "dir": d, "dirname": dn, "dim": dim,
+                         "resp": resp, "atol": [tok(1e3 if resp == "poly" else 1e-6)], "rtol": tok(1e-3 if resp == "poly" else 1e-6), "thetas": [],
+                         "span": tok(LAND_SPAN), "h0": tok(0.5), "max_step": tok(0.5), "dense": True})
+    return jobs
+
+
+def facts_from_radau(facts, job, rec, notes):
+    """Every Newton iteration of RADAU evaluates f at x_n + c_1 h, x_n + c_2 h, x_n + h: the three abscissae must be the Radau IIA nodes
+    (spec/tableaux/TableauxRADAU.tla).  Other evaluations (f0, finite-difference Jacobian, error estimate) happen at x_n; f(x_n + h, .)
+    after a triple marks acceptance.  poly: y_k' = t^k is integrated exactly by the order-5 method for k <= 4."""
+    m, dn, d, via = "RADAU", job["dirname"], job["dir"], "radau/" + job["resp"]
+    if rec.get("panic") or rec.get("error"):
+        facts.add(m, "radau_run", dn, via, CAP, 0, got="panic/error: %s" % (rec.get("panic") or rec.get("error")), want="a completed run")
+        return 0
+    c1, c2, _ = tg.radau_nodes()
+    ts = [untok(c["t"]) for c in rec["calls"]]
+    if not _finite(ts):
+        facts.add(m, "radau_run", dn, via, CAP, 0, got="non-finite abscissa handed to f", want="finite times")
+        return 0
+    x_left, last3, i, triples, step = 0.0, None, 0, [], 1
+    while i < len(ts):
+        t = ts[i]
+        if last3 is not None and t == last3 and t != x_left:
+            x_left, last3, step = t, None, step + 1          # f at the new point: the attempt was accepted
+            i += 1
+        elif t == x_left:
+            i += 1
+        elif i + 2 < len(ts):
+            triples.append((step, x_left, ts[i], ts[i + 1], ts[i + 2]))
+            last3 = ts[i + 2]
+            i += 3
+        else:
+            notes.append(f"RADAU/{job['resp']}/{dn}: ode calls {i + 1}.. do not form a stage triple")
+            return None
+    accepted = [untok(e["x"]) for e in rec.get("solout", []) if untok(e["x"]) != 0.0]
+    ends = {tr[4] for tr in triples}
+    if not triples or any(x not in ends for x in accepted):
+        notes.append(f"RADAU/{job['resp']}/{dn}: the accepted step ends are not the third abscissa of a stage triple (evaluation order changed?)")
+        return None
+    for n, (step, xl, t1, t2, t3) in enumerate(triples, 1):
+        h = F(t3) - F(xl)
+        scale = max(abs(F(xl)), abs(F(t3)))
+        if h == 0 or (h > 0) != (d > 0):
+            facts.add(m, "radau_h@%d" % n, dn, via, CAP, 0, got="triple %d: x_n=%r, third abscissa %r" % (n, xl, t3), want="x_n + h in the direction of integration")
+            continue
+        for name, tt, c in (("c1", t1, c1), ("c2", t2, c2)):
+            facts.add(m, "radau_%s@%d" % (name, n), dn, via, abs_dist(tt, F(xl) + c * h, scale), RADAU_T_BOUND,
+                      got="t=%r, i.e. c=%.17g of the step [%r, %r] (step %d%s)" % (tt, float((F(tt) - F(xl)) / h), xl, t3, step, ", first" if step == 1 else ""),
+                      want="%s = %.17g" % (name, float(c)))
+    if job["resp"] == "poly":
+        xend = F(d * LAND_SPAN)
+        for e in rec["solout"]:
+            x = untok(e["x"])
+            if x == 0.0:
+                continue
+            for k in range(job["dim"]):
+                want = F(x) ** (k + 1) / (k + 1)
+                facts.add(m, "radau_poly_t%d@%r" % (k, abs(x)), dn, via, abs_dist(untok(e["y"][k]), want, abs(xend) ** (k + 1)), RADAU_POLY_BOUND,
+                          got=untok(e["y"][k]), want="y' = t^%d integrated exactly: y(%r) = %.17g" % (k, x, float(want)))
+    return len(triples)
 
 
 def facts_dense_invariance(facts, m, dn, rec_on, rec_off):
@@ -615,7 +773,7 @@ def tlc_validate(facts, work, prop):
 def make_violations(prop, bad):
     out = []
     for method, coef, dn, via, dist, bound, info in bad:
-        sig = f"{prop}/{method}/{coef}/{dn}"
+        sig = f"{prop}/{method}/{coef.split('@')[0]}/{dn}"
         unit = "2^-52 relative units" if via == "stepsize" else "ulp"
         detail = (f"{method} {coef} ({dn}, via {via}): extracted {info.get('got')!r}, specification {info.get('want')}; "
                   f"distance {'>= 2e9' if dist >= CAP else dist} {unit} > allowance {bound}")
@@ -642,15 +800,16 @@ def run(tier, seed, replay=None, keep=False):
     work = vlib.workdir("c02-%d" % os.getpid())
     try:
         methods = methods_for(replay)
+        radau = len(methods) == len(tg.METHODS)          # not when a replay file restricts the run to one explicit method
         use_private_tmp(work)
         # 1-2. specification and its proof obligations
-        gen = tg.generate(methods=tg.METHODS)
+        gen = tg.generate(methods=tg.METHODS + ["RADAU"])
         items, canaries = [], []
-        for m in methods:
+        for m in methods + (["RADAU"] if radau else []):
             em = gen[m]
             names = tg.count_obligations(em.path, PROP)
             items.append((m, em.path, ["All_" + PROP], names))
-        can_methods = methods if tier == "thorough" else [m for m in methods if m in ("DOPRI5",)] or methods[:1]
+        can_methods = (methods + (["RADAU"] if radau else [])) if tier == "thorough" else [m for m in methods if m in ("DOPRI5",)] or methods[:1]
         for m in can_methods:
             canaries += [(gen[m].path, n) for n, p in gen[m].canaries if p == PROP]
         ap = run_apalache(items, canaries)
@@ -666,10 +825,11 @@ def run(tier, seed, replay=None, keep=False):
                  f"{ap['canaries_refuted']}/{ap['canaries']} false identities refuted ({time.time()-t0:.1f}s)")
         # 3. extraction from the real code
         # the harness is (re)built against the working tree by vlib.run_bin -> ensure_harness() inside run_probe
-        jobs = unit_jobs(methods, []) + est_jobs(methods, tier) + landing_jobs(methods)
+        jobs = unit_jobs(methods, []) + est_jobs(methods, tier) + landing_jobs(methods) + reject_jobs(methods) + (radau_jobs() if radau else [])
         recs = run_probe(jobs, work, "c02")
         facts = Facts(PROP)
         drift = []
+        probe_notes, probes_skipped, rejections_seen, radau_triples = [], 0, 0, 0
         cal = calibrate(jobs, recs)
         for (m, dn), why in sorted(cal.items()):
             if why:
@@ -686,6 +846,20 @@ def run(tier, seed, replay=None, keep=False):
                     est_skipped += 1
             elif j["kind"] == "land":
                 facts_from_landing_run(facts, j, recs[j["id"]], max_stage=main_stages(j["method"]))
+            elif j["kind"] == "rej":
+                nrej = facts_from_reject_run(facts, j, recs[j["id"]], probe_notes)
+                if nrej is None:
+                    probes_skipped += 1
+                else:
+                    rejections_seen += nrej
+                    if nrej == 0:
+                        probe_notes.append(f"{j['id']}: no rejection was provoked (the accepted step was still checked)")
+            elif j["kind"] == "radau":
+                ntr = facts_from_radau(facts, j, recs[j["id"]], probe_notes)
+                if ntr is None:
+                    probes_skipped += 1
+                else:
+                    radau_triples += ntr
         for m in methods:
             for dn, _d in DIRS:
                 facts_dense_invariance(facts, m, dn, recs[f"land/{m}/lowlevel/{dn}"], recs[f"land/{m}/nodense/{dn}"])
@@ -699,6 +873,8 @@ def run(tier, seed, replay=None, keep=False):
         n_new, n_known = vlib.report(PROP, viols)
         for d in drift:
             vlib.log("[C02] drift: " + d)
+        for d in probe_notes:
+            vlib.log("[C02] DRIFT probe not interpretable / not exercised: " + d)
         # evidence
         nontriv = {(row["method"], row["coef"]) for row, info in zip(facts.rows, facts.info)
                    if row["via"] != "source" and info.get("want") not in ("0", 0, None)}
@@ -723,10 +899,12 @@ def run(tier, seed, replay=None, keep=False):
             "samples": ob_samples[:4] + fact_samples,
             "states": r.distinct, "transitions": r.generated, "traces_validated_against_impl": len(jobs),
             "probe_runs": len(jobs), "source_constants_compared": sum(len(s) for s in src_seen.values()),
+            "rejected_attempts_observed": rejections_seen, "radau_stage_triples_checked": radau_triples,
+            "probes_skipped_uninterpretable": probes_skipped, "probe_notes": probe_notes[:10],
             "controller_calibrations": len(cal), "controller_model_mismatch": sum(1 for v in cal.values() if v),
             "controller_model_mismatch_notes": [f"{m}/{dn}: {why}" for (m, dn), why in sorted(cal.items()) if why],
             "error_weight_probes_skipped": est_skipped,
-            "non_conforming_records": len(bad), "drift": len(drift) + sum(1 for v in cal.values() if v), "drift_notes": drift[:10],
+            "non_conforming_records": len(bad), "drift": len(drift) + sum(1 for v in cal.values() if v) + probes_skipped, "drift_notes": drift[:10],
             "methods": methods, "exhaustive": True,
         }
         vlib.write_evidence(PROP, tier, seed, "proof", cov, ASSUMPTIONS, time.time() - t0, n_new)
